@@ -97,6 +97,14 @@ func init() {
 // a named loop (a table at run time), an inline subroutine, a global pattern, a name bound only on
 // some paths — next to ordinary captures and built-ins.
 func withNameCases(r *rand.Rand, st *Stats, n int) []Case {
+	// definitions placed before the replace command; their inner captures are bound at run time although the
+	// command body never declares them
+	defs := []struct{ def, call, names string }{
+		{"set kv to pattern (at least 1 letter) = key '=' (at least 1 digit) = val", "kv", "key val kv"},
+		{"set w to pattern (letter = first) at least 0 letter", "w ' ' w", "first w"},
+		{"set d to pattern (digit = dg)\nset dd to pattern d (d = second)", "dd", "dg second d dd"},
+		{"set opt to pattern maybe ('-' = sign) at least 1 digit", "opt", "sign opt"},
+	}
 	bodies := []struct{ body, names string }{
 		{"at least 1 (digit = d) named parts", "parts d"},
 		{"at least 0 ((letter = l) digit) named ps ';'", "ps l"},
@@ -106,7 +114,7 @@ func withNameCases(r *rand.Rand, st *Stats, n int) []Case {
 		{"('a' = x) or ('b' = y)", "x y"},
 		{"maybe ('a' = x) 'b'", "x"},
 	}
-	texts := []string{"ab 123 cd 45", "a1b2; c3;", "aabb ab b", "foo bar baz ", "12,3,;4,", "ab ba b", ""}
+	texts := []string{"ab 123 cd 45", "a1b2; c3;", "aabb ab b", "foo bar baz ", "12,3,;4,", "ab ba b", "", "a=1 bb=22", "x=7 -5 12", "77 8"}
 	out := []Case{}
 	for i := 0; i < n; i++ {
 		b := bodies[r.Intn(len(bodies))]
@@ -127,7 +135,28 @@ func withNameCases(r *rand.Rand, st *Stats, n int) []Case {
 			src = "set g to pattern 'a'\n"
 			items = append(items, "g")
 		}
-		src += "replace all " + b.body + " with " + strings.Join(items, " ")
+		body := b.body
+		if r.Intn(3) == 0 {
+			// the body is (or starts with) a reference to a global pattern whose captures the with list names
+			d := defs[r.Intn(len(defs))]
+			src += d.def + "\n"
+			dn := strings.Fields(d.names)
+			items = nil
+			for j := 0; j < 1+r.Intn(4); j++ {
+				if r.Intn(4) == 0 {
+					items = append(items, quote(":"))
+				} else {
+					items = append(items, dn[r.Intn(len(dn))])
+				}
+			}
+			body = d.call
+			if r.Intn(3) == 0 {
+				body = d.call + " maybe (" + b.body + ")"
+				items = append(items, names[r.Intn(len(names))])
+			}
+			st.Features["with-names-capture-inside-global-pattern"]++
+		}
+		src += "replace all " + body + " with " + strings.Join(items, " ")
 		text := texts[r.Intn(len(texts))]
 		if r.Intn(3) == 0 {
 			text = text + texts[r.Intn(len(texts))]
